@@ -82,6 +82,21 @@ func c02Core(c *Check, P string, r *RouterRoles) {
 	// "every message it returned was accepted" is vacuous when the chain returned none
 	noOutputs, _ := LenZeroEdges(D, func(v ssa.Value) bool { return AllOrigins(v, ResultOfAny(r.ChainCalls, 0)) })
 	pubOK = append(pubOK, noOutputs...)
+	// one error variable merged from several outcomes (`var publishErr error; switch {…}`): its nil test is a
+	// publish-success test when every value merged into it is the publish result, a provably non-nil error, or the
+	// zero value on a path that took the no-outputs edge
+	for _, t := range Tests(D) {
+		if t.Y == nil || !IsNilConst(t.Y) || (t.Op != token.EQL && t.Op != token.NEQ) {
+			continue
+		}
+		if mergedNilGuard(D, t.X, pubErr, noOutputs) {
+			if t.Op == token.EQL {
+				pubOK = append(pubOK, t.True)
+			} else {
+				pubOK = append(pubOK, t.False)
+			}
+		}
+	}
 	c.Floor(P+".O1", "test `chain error == nil`", len(chainOK), 1)
 	c.Floor(P+".O1", "test `publish error == nil`", len(pubOK), 1)
 
@@ -218,6 +233,24 @@ func c02Core(c *Check, P string, r *RouterRoles) {
 					"every path from the `recovered != nil` edge to the closure's exit Nacks the consumed message (unconditionally, whatever the panic value)", wit...)
 			}
 			c.Report(len(ca) == 0, P+".O4", "PANIC-NO-ACK", cl, cl.Pos(), "recover closure", "the recover closure never Acks")
+			// nothing between the panicked edge and the Nack can itself panic on some panic value (the closure runs
+			// during panicking: a second panic escapes it and the message is never settled)
+			if len(panicked) > 0 && len(cn) > 0 {
+				cutN := NewCut().AddInstrs(instrsOf(cn)...)
+				seenTrap := map[ssa.Instruction]bool{}
+				for _, e := range panicked {
+					for in := range ReachEdge(e, cutN) {
+						if what := trapOf(in); what != "" && !seenTrap[in] {
+							seenTrap[in] = true
+							c.Report(false, P+".O4", "PANIC-NACK-NO-TRAP", cl, in.Pos(), "recover closure: "+what,
+								"between recover() and the Nack there is no operation that panics for some recovered value ("+what+")")
+						}
+					}
+				}
+				if len(seenTrap) == 0 {
+					c.Report(true, P+".O4", "PANIC-NACK-NO-TRAP", cl, cl.Pos(), "recover closure", "between recover() and the Nack there is no unchecked type assertion, explicit panic, variable index/slice or division")
+				}
+			}
 		}
 	}
 
@@ -587,4 +620,82 @@ func c02PanicSafeLocks(c *Check, id string, r *RouterRoles) {
 		c.Report(len(bad) == 0, id, "PANIC-SAFE-LOCKS", fn, s.Pos(), "user code called under a lock", "no lock taken by the router is held across a call of user code (handler chain, publisher) unless it is released by a defer: a panic of that code must not leave the lock held for the handler's later messages", "held without deferred unlock: "+strings.Join(bad, ","))
 	}
 	c.Floor(id, "calls of user code on the dispatch path (chain, Publish)", n, 2)
+}
+
+// trapOf names the run-time trap an instruction can raise whatever its callees do ("" if none is known).
+func trapOf(in ssa.Instruction) string {
+	switch x := in.(type) {
+	case *ssa.TypeAssert:
+		if !x.CommaOk {
+			return "unchecked type assertion"
+		}
+	case *ssa.Panic:
+		return "explicit panic"
+	case *ssa.IndexAddr:
+		if _, isC := x.Index.(*ssa.Const); !isC {
+			return "variable index"
+		}
+		if _, isAlloc := x.X.(*ssa.Alloc); !isAlloc {
+			if _, isSl := x.X.Type().Underlying().(*types.Slice); isSl {
+				return "index into a slice"
+			}
+		}
+	case *ssa.Index:
+		if _, isC := x.Index.(*ssa.Const); !isC {
+			return "variable index"
+		}
+	case *ssa.Slice:
+		if x.Low != nil || x.High != nil {
+			return "slice expression"
+		}
+	case *ssa.BinOp:
+		if x.Op == token.QUO || x.Op == token.REM {
+			if _, isC := x.Y.(*ssa.Const); !isC {
+				if b, ok := x.Y.Type().Underlying().(*types.Basic); ok && b.Info()&types.IsInteger != 0 {
+					return "integer division"
+				}
+			}
+		}
+	}
+	return ""
+}
+
+// mergedNilGuard: v is a phi whose every incoming value is the tracked result,
+// a provably non-nil value, or nil on an edge that is only reachable through
+// one of the vacuous edges; at least one incoming value is the tracked result.
+func mergedNilGuard(fn *ssa.Function, v ssa.Value, isRes func(ssa.Value) bool, vacuous []Edge) bool {
+	hasRes := false
+	seen := map[*ssa.Phi]bool{}
+	var rec func(v ssa.Value) bool
+	rec = func(v ssa.Value) bool {
+		phi, ok := v.(*ssa.Phi)
+		if !ok || seen[phi] {
+			return false
+		}
+		seen[phi] = true
+		for i, e := range phi.Edges {
+			pred := phi.Block().Preds[i]
+			switch {
+			case isRes(e):
+				hasRes = true
+			case IsNilConst(e):
+				direct := false
+				for _, ve := range vacuous {
+					if ve.From == pred && pred.Succs[ve.Idx] == phi.Block() {
+						direct = true
+					}
+				}
+				if !direct && (len(vacuous) == 0 || !GuardedBy(fn, pred.Instrs[len(pred.Instrs)-1], vacuous)) {
+					return false
+				}
+			case ProvablyNonNil(e, func(ssa.Value) bool { return false }):
+			default:
+				if !rec(e) {
+					return false
+				}
+			}
+		}
+		return true
+	}
+	return rec(v) && hasRes
 }
